@@ -31,6 +31,7 @@ def setup():
 
     class Address(Base):
         __table__ = addr
+        user = relationship("User", overlaps="addresses")
 
     _m.update(locals())
     return _m
@@ -298,9 +299,23 @@ def families():
             return items.delete().where(items.c.owner == o).where(items.c.qty > q), None, None
         return dict(kind="dml", desc="%s owner=%r q=%s" % (which, o, q), build=build)
 
+    @fam("dml_embedded_params")
+    def f15b(rng):
+        # DML that embeds a SELECT carrying Executable.params(), executed with one parameter set or with a list of them
+        nm = rng.choice(["alice", "bob", "carl"])
+        many = rng.random() < 0.6
+        ids = rng.sample([1, 2, 3, 4, 5, 6, 7], 3 if many else 1)
+        def build():
+            sub = select(func.count(items.c.id)).where(items.c.owner == bindparam("own", "nobody")).params(own=nm).scalar_subquery()
+            s = items.update().where(items.c.id == bindparam("b_id")).values(qty=items.c.qty + sub)
+            p = [{"b_id": i} for i in ids] if many else {"b_id": ids[0]}
+            return s, p, None
+        return dict(kind="dml", desc="update qty += count(owner=%r via stmt params) ids=%s many=%s" % (nm, ids, many), build=build)
+
     @fam("orm_options")
     def f16(rng):
-        opt = rng.choice(["none", "selectin", "joined", "defer", "criteria"])
+        opt = rng.choice(["none", "selectin", "joined", "defer", "criteria", "and_obj", "and_obj"])
+        uid = rng.choice([1, 2, 3, 6])
         v = rng.choice(["a@x", "b@x", "%@x", "%@y"])
         nm = rng.choice(NAMES[:4])
         def build():
@@ -314,8 +329,11 @@ def families():
                 s = s.options(m["defer"](User.age))
             elif opt == "criteria":
                 s = s.options(m["selectinload"](User.addresses), m["with_loader_criteria"](Address, Address.email.like(v)))
+            elif opt == "and_obj":
+                # relationship criteria comparing a many-to-one to an *object*: the bind gets its value from a callable
+                s = s.options(m["selectinload"](User.addresses.and_(Address.user == User(id=uid))))
             return s, None, None
-        return dict(kind="orm", desc="orm name=%r opt=%s crit=%r" % (nm, opt, v), build=build)
+        return dict(kind="orm", desc="orm name=%r opt=%s crit=%r uid=%s" % (nm, opt, v, uid), build=build)
 
     @fam("exec_options")
     def f17(rng):
